@@ -81,6 +81,14 @@ var own1Table = map[string][]string{
 
 func runOwn1(m *Model, r *RuleResult) {
 	m.fxInit()
+	// the table names the self-loop pre-processor's package by its path on the reference tree; the package is whichever one holds
+	// the pre-processor today (resolved by shape), so moving it (benign AB1: internal/processor/fixup) keeps its entry
+	rolePkg := map[string]string{}
+	if pre := m.anchorSelfLoopPre(); pre != nil {
+		if sp := shortPkg(pkgPathOf(pre)); sp != "internal/processor/preprocessor" {
+			rolePkg[sp] = "internal/processor/preprocessor"
+		}
+	}
 	type agg struct {
 		loc, fn, pkg string
 		pos          string
@@ -123,7 +131,7 @@ func runOwn1(m *Model, r *RuleResult) {
 		allowed := own1Table[a.loc]
 		ok := a.mut == 0
 		for _, p := range allowed {
-			if p == a.pkg {
+			if p == a.pkg || p == rolePkg[a.pkg] {
 				ok = true
 			}
 		}
